@@ -3,13 +3,13 @@
 (*  Profile "sem"  : states = rule sets of ONE rule family (kind), grown rule by     *)
 (*                   rule up to MaxRules; lemmas on the decision table are state     *)
 (*                   invariants; the generator prints every distinct rule set.       *)
-(*  Profile "hist" : 3 policies (contents chosen at Init), 1 role, 6 tokens sharing  *)
+(*  Profile "hist" : 3 policies (contents chosen at Init), 2 roles, 6 tokens sharing *)
 (*                   policies; commands resolve(t) / setpolicy(p, rules) through one *)
 (*                   pair of caches; NoCrossTalk is the invariant; the generator     *)
 (*                   prints one command history per transition.                      *)
 EXTENDS ACL, Json
 
-CONSTANTS Profile, MaxRules, MaxDepth, Fams, NameCount, SvcInts, NC1, NC2, NC3, AliasBug
+CONSTANTS Profile, MaxRules, MaxDepth, Fams, NameCount, SvcInts, NC1, NC2, NC3, AliasBug, TokSet
 
 VARIABLES st, hist
 
@@ -58,21 +58,34 @@ EmitR == IF Profile = "sem" THEN PrintT(<<"TRACE", ToJson([rules |-> st.R, fam |
 ---------------------------------------------------------------------------
 (* profile "hist" *)
 S(n, m, lv)        == Rl("service", n, m, lv)
-HRuleU == <<S(A, "exact", "read"), S(A, "exact", "write"), S(A, "exact", "deny"),
-            [S(A, "exact", "read") EXCEPT !.int = "write"],
+\* order matters only for the small configurations: PolChoices(n) takes the first n
+HRuleU == <<S(A, "exact", "read"), S(A, "exact", "write"),
+            [S(A, "exact", "read") EXCEPT !.int = "write"],      \* lower level, higher explicit intentions level
+            S(A, "exact", "deny"),
             S(<<>>, "prefix", "write"), S(<<>>, "prefix", "deny"),
             Rl("key", A, "exact", "write"), Rl("key", <<>>, "prefix", "read"),
             Rl("node", B, "exact", "read"), S(A \o Sidecar, "exact", "deny")>>
 PolChoices(n) == {{HRuleU[i]} : i \in 1..n} \cup {{}}
 
-HRoles == [r1 |-> [pols |-> {1, 3}, svc |-> {}, node |-> {}]]
-Tk(p, r, s, n) == [pols |-> p, roles |-> r, svc |-> s, node |-> n]
-HToks == [t1 |-> Tk({1}, {}, {}, {}),
-          t2 |-> Tk({1, 2}, {}, {}, {}),
-          t3 |-> Tk({2, 3}, {}, {}, {}),
-          t4 |-> Tk({}, {"r1"}, {}, {}),          \* {1,3} through a role
-          t5 |-> Tk({2}, {}, {A}, {}),            \* policy 2 plus a service identity for "a"
-          t6 |-> Tk({3}, {}, {}, {B})]            \* policy 3 plus a node identity for "b"
+HRoles == [r1 |-> [pols |-> {1, 3}, svc |-> {}, node |-> {}, tsvc |-> {}, tnode |-> {}],
+           r2 |-> [pols |-> {}, svc |-> {}, node |-> {}, tsvc |-> {A}, tnode |-> {}]]   \* only builtin/service {a}
+Tk(p, r, s, n, ts, tn) == [pols |-> p, roles |-> r, svc |-> s, node |-> n, tsvc |-> ts, tnode |-> tn]
+\* TokSet = "base": tokens sharing policies directly, through a role, with one identity each
+BaseToks == [t1 |-> Tk({1}, {}, {}, {}, {}, {}),
+             t2 |-> Tk({1, 2}, {}, {}, {}, {}, {}),
+             t3 |-> Tk({2, 3}, {}, {}, {}, {}, {}),
+             t4 |-> Tk({}, {"r1"}, {}, {}, {}, {}),          \* {1,3} through a role
+             t5 |-> Tk({2}, {}, {A}, {}, {}, {}),            \* policy 2 plus a service identity for "a"
+             t6 |-> Tk({3}, {}, {}, {B}, {}, {})]            \* policy 3 plus a node identity for "b"
+\* TokSet = "dup": tokens that carry the same synthetic policy twice (identity X + templated policy X,
+\* directly or through a role) next to their twins = the same token minus that pair
+DupToks ==  [d1 |-> Tk({}, {}, {A}, {}, {A}, {}),            \* service identity a + builtin/service {a}
+             d2 |-> Tk({}, {}, {}, {}, {}, {}),              \* no links at all (like the anonymous token): twin of d1, d5
+             d3 |-> Tk({2}, {"r2"}, {A}, {}, {}, {}),        \* policy 2 + identity a + builtin/service {a} via role r2
+             d4 |-> Tk({2}, {}, {}, {}, {}, {}),             \* twin of d3
+             d5 |-> Tk({}, {}, {}, {B}, {}, {B}),            \* node identity b + builtin/node {b}
+             d6 |-> Tk({2}, {}, {A}, {}, {}, {})]            \* control: policy 2 + identity a, no duplicate
+HToks == IF TokSet = "dup" THEN DupToks ELSE BaseToks
 NoLast == [t |-> "", rules |-> {}, own |-> {}]
 
 HInit ==
@@ -82,7 +95,7 @@ HInit ==
   /\ hist = <<[t |-> "world", pol |-> st.env.pol, roles |-> HRoles, tok |-> HToks]>>
 
 HCmds == {[t |-> "resolve", tok |-> t] : t \in DOMAIN HToks}
-         \cup {[t |-> "setpolicy", p |-> p, rules |-> r] : p \in {1, 2}, r \in {{HRuleU[2]}, {HRuleU[3]}}}
+         \cup {[t |-> "setpolicy", p |-> p, rules |-> r] : p \in {1, 2}, r \in {{HRuleU[2]}, {HRuleU[4]}}}
 
 ApplyH(s, cmd) ==
   IF cmd.t = "resolve"
